@@ -108,7 +108,10 @@ where
     let bounds = usable_bounds::<S>(&cfg);
     let bound = if !bounds.is_empty() && rng.next_u32() % 2 == 0 { Some(bounds[below(rng, bounds.len())]) } else { None };
     let top = bound.map(|b| b.min(cfg.supported_degree)).unwrap_or(cfg.supported_degree);
-    let htop = cfg.supported_hiding.min(bound.unwrap_or(usize::MAX)).max(1);
+    // a third of the cases draw the hiding bound up to the supported one whatever the degree bound is (h > bound:
+    // Sonic blinds a bounded polynomial with the shortened shifted gamma powers and may refuse - a refusal is not
+    // judged here - but a commitment that is returned must carry the h + 2 blinding coefficients asked for)
+    let htop = if rng.next_u32() % 3 == 0 { cfg.supported_hiding.max(1) } else { cfg.supported_hiding.min(bound.unwrap_or(usize::MAX)).max(1) };
     let h = match rng.next_u32() % 3 {
         0 => 1,
         1 => htop,
